@@ -1,20 +1,126 @@
-(* C04 — the result is independent of how the byte stream is chunked. *)
-Require Import Tac Vte Screen Perform Parser VteInv VteChunk Chunking.
+(* C04 — the result is independent of how the byte stream is chunked.
+
+   Since the repair of finding K04a (Parser.process holds back an incomplete utf-8 tail in the new
+   field [pend] and gives vte only the bytes before it) this holds for EVERY chunking: [C04_all].
+   The vte model itself is unchanged and still has the bug ([C04_vte_refuted]); what protects it is
+   [C04_process_shields_vte]. *)
+Require Import Tac Utf8 Vte Screen Perform Parser Utf8Lemmas VteInv VteChunk Pend Chunking.
+Require Import GridInv ScreenInv.
 Open Scope N_scope.
 
-(* Main theorem.  [clean v cs] says that no chunk of cs starts in the one situation in which
-   vte 0.14.1 itself drops bytes (open finding K04a: a chunk boundary right after the lead byte of
-   a 2-byte sequence, followed by [cont, ASCII, non-ASCII]); [k04a] is the exact trigger. *)
-Theorem C04_main : forall p cs1 cs2,
-  pwf (vt p) -> concat cs1 = concat cs2 -> clean (vt p) cs1 -> clean (vt p) cs2 ->
-  process_chunks p cs1 = process_chunks p cs2.
-Proof. exact process_chunking_independent. Qed.
+(* [parser_ok p] (ScreenInv.v) is the invariant of every parser made by parser_new and driven through
+   the API:  screen_ok (scr p)  /\  pwf (vt p)  /\  (pend p = [] -> partial (vt p) = [])
+             /\  incomplete_tail (pend p) = len (pend p)     (pend p is empty or an incomplete
+   utf-8 sequence, hence at most 3 bytes) *)
+Theorem C04_parser_ok_unfold : forall p,
+  parser_ok p <->
+  screen_ok (scr p) /\ pwf (vt p) /\ (pend p = [] -> partial (vt p) = []) /\
+  incomplete_tail (pend p) = len (pend p).
+Proof.
+  intros p. split.
+  - intros [O [W P T]]. auto.
+  - intros (O & W & P & T). split; [exact O|]. split; assumption.
+Qed.
+
+(* MAIN THEOREM: no condition on the chunkings.  Equality of the whole outcome: the vte state, the
+   screen, the callback log, the held-back bytes — or the same panic. *)
+Theorem C04_all : forall p cs1 cs2,
+  parser_ok p -> concat cs1 = concat cs2 -> process_chunks p cs1 = process_chunks p cs2.
+Proof. intros p cs1 cs2 [_ I]. now apply process_chunking_independent. Qed.
+
+(* in particular: any chunking gives what the unsplit stream gives *)
+Corollary C04_unsplit : forall p cs, parser_ok p -> process_chunks p cs = process p (concat cs).
+Proof.
+  intros p cs H. rewrite (C04_all p cs [concat cs] H) by (cbn [concat]; now rewrite app_nil_r).
+  cbn [process_chunks]. destruct (process p (concat cs)); reflexivity.
+Qed.
+
+(* the invariant is established by parser_new and kept by process (and by every API call:
+   ScreenInv.step_ok / run_ok; together with "never panics": C13) *)
+Theorem C04_reachable_ok : forall rows cols cap rz, 1 <= rows <= MAXDIM -> 1 <= cols <= MAXDIM ->
+  exists p, parser_new rows cols cap rz = Ok p /\ parser_ok p.
+Proof. exact parser_new_ok. Qed.
+Theorem C04_ok_step : forall p bs, parser_ok p -> exists q, process p bs = Ok q /\ parser_ok q.
+Proof. exact process_ok. Qed.
 
 (* a parser that has only ever been driven through the API has a well-formed vte state *)
 Theorem C04_reachable_pwf : forall rows cols cap rz p, parser_new rows cols cap rz = Ok p -> pwf (vt p).
 Proof. intros rows cols cap rz p E. unfold parser_new in E. bind_inv E. inv E. exact pwf_init. Qed.
 Theorem C04_pwf_step : forall p bs q, pwf (vt p) -> process p bs = Ok q -> pwf (vt q).
 Proof. exact process_pwf. Qed.
+
+(* what process gives to vte ([delivered]) and what it keeps ([held]): the buffer pend p ++ bs is
+   split before its longest incomplete utf-8 suffix *)
+Theorem C04_process_split : forall p bs,
+  delivered p bs ++ held p bs = pend p ++ bs /\
+  len (held p bs) = incomplete_tail (pend p ++ bs) /\ len (held p bs) <= 3 /\
+  (held p bs = [] \/ decode1 (held p bs) = DIncomplete) /\
+  process p bs =
+    (let '(v, acts) := advance (vt p) (delivered p bs) in
+     do '(s, evs) <- perform_all (resizing p) (scr p) acts [];
+     Ok (mkParser v s (log p ++ evs) (resizing p) (held p bs))).
+Proof.
+  intros p bs. split; [apply delivered_held|]. split; [apply len_tl_part|].
+  split; [unfold held; rewrite len_tl_part; apply incomplete_tail_le3|].
+  split; [apply tl_part_inc|reflexivity].
+Qed.
+
+(* THE SHIELD.  vte's chunk-boundary bug needs a chunk that starts with the continuation of the
+   sequence vte has buffered; process never produces one: every chunk it hands to vte is outside
+   the trigger [k04a], so the bug-faithful [advance] coincides with the repaired [advance'] on it.
+   (NOT true: "vte's partial buffer stays empty": process p [195;195] hands [195] to vte, see
+   [C04_partial_not_empty]; the buffer is empty whenever nothing is held back.) *)
+Theorem C04_process_shields_vte : forall p bs, parser_ok p ->
+  k04a (vt p) (delivered p bs) = false /\
+  advance (vt p) (delivered p bs) = advance' (vt p) (delivered p bs) /\
+  forall q, process p bs = Ok q -> (pend q = [] -> partial (vt q) = []).
+Proof.
+  intros p bs [_ I]. pose proof (k04a_shielded p bs I) as K.
+  split; [exact K|]. split; [exact (advance_eq_advance' _ _ K)|].
+  intros q E. exact (pi_partial q (process_pend_inv p bs q I E)).
+Qed.
+
+(* a chunk that ends in a complete character, with nothing held back: everything is delivered,
+   nothing is held back, and vte's partial buffer is empty afterwards *)
+Theorem C04_complete_chunk : forall p bs q, parser_ok p -> pend p = [] -> incomplete_tail bs = 0 ->
+  process p bs = Ok q ->
+  delivered p bs = bs /\ pend q = [] /\ partial (vt q) = [].
+Proof.
+  intros p bs q [_ I] Hp Z E. split; [exact (delivered_clean p bs Hp Z)|].
+  pose proof (process_clean_pend p bs q Hp Z E) as Hq. split; [exact Hq|].
+  exact (pi_partial q (process_pend_inv p bs q I E) Hq).
+Qed.
+
+(* the vte fact behind it: a chunk without an incomplete tail, given to a vte whose partial buffer is
+   empty, leaves it empty *)
+Theorem C04_vte_no_partial : forall v bs,
+  pwf v -> partial v = [] -> incomplete_tail bs = 0 -> partial (fst (advance v bs)) = [].
+Proof. exact advance_partial_nil. Qed.
+
+(* what [incomplete_tail] computes: the length of the longest suffix that is an incomplete utf-8
+   sequence (decode1 = DIncomplete: a proper, non-empty prefix of a well-formed character) *)
+Theorem C04_incomplete_tail_spec : forall bs,
+  incomplete_tail bs <= 3 /\ incomplete_tail bs <= len bs /\
+  (0 < incomplete_tail bs -> decode1 (skipnN (len bs - incomplete_tail bs) bs) = DIncomplete) /\
+  (forall a t, bs = a ++ t -> decode1 t = DIncomplete -> len t <= incomplete_tail bs).
+Proof.
+  intros bs. split; [apply incomplete_tail_le3|]. split; [apply incomplete_tail_le_len|].
+  split; [intros H; now apply incomplete_tail_inc|]. intros a t -> H. now apply incomplete_tail_ge.
+Qed.
+(* it depends on the held-back tail and the new bytes only *)
+Theorem C04_incomplete_tail_app : forall bs c,
+  incomplete_tail (bs ++ c) = incomplete_tail (skipnN (len bs - incomplete_tail bs) bs ++ c).
+Proof. exact incomplete_tail_app. Qed.
+(* input that ends in an ASCII byte or in a complete character has no incomplete tail *)
+Theorem C04_tail_ascii : forall xs b, b < 128 -> incomplete_tail (xs ++ [b]) = 0.
+Proof. exact incomplete_tail_app_ascii. Qed.
+Theorem C04_tail_char : forall xs t c, decode1 t = DChar c (len t) -> incomplete_tail (xs ++ t) = 0.
+Proof. exact incomplete_tail_app_char. Qed.
+
+(* counterexample to the stronger invariant: after C3 C3 both pend and vte's buffer hold C3 *)
+Example C04_partial_not_empty : forall p, parser_new 4 10 5 true = Ok p ->
+  exists q, process p [195; 195] = Ok q /\ pend q = [195] /\ partial (vt q) = [195].
+Proof. intros p E. vm_compute in E. inv E. eexists. split; [vm_compute; reflexivity|]. split; reflexivity. Qed.
 
 (* at the level of the vte model: the repaired parser is exactly compositional, and the real one
    equals the repaired one outside the trigger *)
@@ -24,15 +130,23 @@ Theorem C04_vte_app : forall p a b, pwf p ->
 Proof. exact advance'_app. Qed.
 Theorem C04_vte_bug_exact : forall p bs, k04a p bs = false -> advance p bs = advance' p bs.
 Proof. exact advance_eq_advance'. Qed.
+(* chunking independence of vte alone, for chunkings that avoid the trigger (as before) *)
+Theorem C04_vte_clean : forall p cs1 cs2,
+  pwf p -> concat cs1 = concat cs2 -> clean p cs1 -> clean p cs2 ->
+  fst (advance_chunks p cs1) = fst (advance_chunks p cs2) /\
+  norms (snd (advance_chunks p cs1)) = norms (snd (advance_chunks p cs2)).
+Proof. exact chunking_independent. Qed.
 
-(* io::Write is process and reports the whole buffer; flush is a no-op *)
+(* io::Write is process and reports the whole buffer (also the held-back bytes count as written);
+   flush is a no-op (held-back bytes stay held back) *)
 Theorem C04_write : forall p bs, write p bs = (do q <- process p bs; Ok (q, len bs)).
 Proof. reflexivity. Qed.
 Theorem C04_flush : forall p, flush p = p.
 Proof. reflexivity. Qed.
 
-(* the finding: "éAé" cut after its first byte loses the A (vte 0.14.1) *)
-Theorem C04_refuted : exists p a b,
+(* the finding, now a statement about the vte model alone: "éAé" cut after its first byte loses
+   the A (vte 0.14.1) *)
+Theorem C04_vte_refuted : exists p a b,
   pwf p /\ k04a (fst (advance p a)) b = true /\
   snd (advance (fst (advance p a)) b) = [APrint 233; APrint 233] /\
   snd (advance p (a ++ b)) = [APrint 233; APrint 65; APrint 233].
@@ -41,8 +155,35 @@ Proof.
   split; [exact pwf_init|]. vm_compute. auto.
 Qed.
 
-(* non-vacuity: a clean three-way cut of a stream with an escape sequence and a wide character *)
+(* ... and the same witness through process: the cut gives the same parser as the unsplit stream
+   (the first call holds back C3 and gives vte nothing) *)
+Example C04_witness_repaired : forall p, parser_new 4 10 5 true = Ok p ->
+  process_chunks p [[195]; [169; 65; 195; 169]] = process_chunks p [[195; 169; 65; 195; 169]] /\
+  (exists q, process p [195] = Ok q /\ pend q = [195] /\ vt q = vt p /\ scr q = scr p) /\
+  (exists q, process_chunks p [[195]; [169; 65; 195; 169]] = Ok q /\ pend q = [] /\ partial (vt q) = []).
+Proof.
+  intros p E. vm_compute in E. inv E. split; [vm_compute; reflexivity|].
+  split; eexists; (split; [vm_compute; reflexivity|]); repeat split; reflexivity.
+Qed.
+
+(* non-vacuity of the vte-level statement: a clean three-way cut of a stream with an escape sequence
+   and a wide character *)
 Example C04_clean_example :
   clean p_init [[27; 91]; [51; 49; 109; 228]; [184; 150; 65]] /\
   concat [[27; 91]; [51; 49; 109; 228]; [184; 150; 65]] = concat [[27; 91; 51; 49; 109; 228; 184; 150; 65]].
 Proof. vm_compute. auto. Qed.
+
+Print Assumptions C04_all.
+Print Assumptions C04_unsplit.
+Print Assumptions C04_process_shields_vte.
+Print Assumptions C04_process_split.
+Print Assumptions C04_vte_no_partial.
+Print Assumptions C04_incomplete_tail_spec.
+Print Assumptions C04_incomplete_tail_app.
+Print Assumptions C04_tail_char.
+Print Assumptions C04_complete_chunk.
+Print Assumptions C04_ok_step.
+Print Assumptions C04_reachable_ok.
+Print Assumptions C04_vte_refuted.
+Print Assumptions C04_witness_repaired.
+Print Assumptions C04_partial_not_empty.
